@@ -127,6 +127,45 @@ type C20Case struct {
 	// Req is everything else in the request (the container's own spec, labels, other pod
 	// annotations). The expected adjustment does not depend on it.
 	Req *ReqCtx `json:"req,omitempty"`
+	// Then: further requests sent to the same plugin processes right after this one, each
+	// judged on its own by the same oracle (the plugins must not remember anything).
+	Then []Step `json:"then,omitempty"`
+}
+
+// Step is one follow-up request of a case.
+//
+//	same     the first request once more, byte for byte
+//	renamed  the first request for a container of another name: the annotation TEXTS are the
+//	         same, the container-scoped keys of the created container follow the new name
+//	other    an unrelated request (same plugin options)
+type Step struct {
+	Kind  string   `json:"kind"`
+	Name  string   `json:"name,omitempty"`  // renamed: the new container name
+	Other *C20Case `json:"other,omitempty"` // other: the request
+}
+
+// stepCase returns the request of a follow-up step of c.
+func (c C20Case) stepCase(s Step) C20Case {
+	switch s.Kind {
+	case "other":
+		o := *s.Other
+		o.Opts, o.Then = c.Opts, nil
+		return o
+	case "renamed":
+		o := C20Case{Ctr: s.Name, Opts: c.Opts, Req: c.Req}
+		for _, a := range c.Anns {
+			if a.Scope == scopeCtr && a.Target == c.Ctr {
+				a.Target = s.Name
+			} else if a.Scope == scopeCtr && a.Target == s.Name {
+				a.Target = c.Ctr // keep the keys distinct: the two names swap
+			}
+			o.Anns = append(o.Anns, a)
+		}
+		return o
+	}
+	o := c
+	o.Then = nil
+	return o
 }
 
 func (a *Ann) key() string {
@@ -631,7 +670,30 @@ var payloadMixRlim = []string{"ok", "ok", "ok", "ok", "ok", "ok", "ok", "ok", "o
 
 var unrelatedNames = []string{"mgmt", "sidecar", "init", "z9", "pod"}
 
+// follow-up patterns: the same request again at once, after one to three other requests,
+// for a container of another name
+var stepPatterns = [][]string{nil, nil, nil, {"same"}, {"same"}, {"same", "same"}, {"other", "same"}, {"other", "same"}, {"other", "other", "same"},
+	{"other", "other", "other", "same"}, {"renamed"}, {"other", "renamed"}, {"same", "renamed", "same"}, {"renamed", "other", "same"}}
+
 func genC20(t *rapid.T) C20Case {
+	c := genRequest(t)
+	for _, kind := range rapid.SampledFrom(stepPatterns).Draw(t, "then") {
+		st := Step{Kind: kind}
+		switch kind {
+		case "other":
+			o := genRequest(t)
+			o.Opts = c.Opts
+			st.Other = &o
+		case "renamed":
+			st.Name = rapid.SampledFrom([]string{"other", "c9", c.Ctr + "-2", "x" + c.Ctr}).Draw(t, "newname")
+		}
+		c.Then = append(c.Then, st)
+	}
+	return c
+}
+
+// genRequest draws one request.
+func genRequest(t *rapid.T) C20Case {
 	ctr := rapid.OneOf(
 		rapid.SampledFrom([]string{"c0", "c", "c0-x", "c1", "app", "sleep", "bash"}),
 		rapid.StringMatching(`[a-z][a-z0-9]{0,3}`),
